@@ -171,6 +171,11 @@ func c11Sign(r *Run, t *tape.Tape) {
 		// to C20 (where it must surface by MarshalCBOR at the latest)
 		if t.Bool(1, 5, "c11.signer.fault") {
 			s.Fault = "err"
+			if t.Bool(1, 4, "c11.signer.panic") {
+				// a signer that crashes: go-cose may pass the panic on (that
+				// is the error then), it must not report success
+				s.Fault = "panic"
+			}
 		}
 		if s.Fault != "" {
 			anyFault = true
@@ -181,6 +186,7 @@ func c11Sign(r *Run, t *tape.Tape) {
 	}
 	var err error
 	r.Lib(func() { err = m.Sign(ent, spec.External, signers...) })
+	err = r.TakeSeamPanic(err)
 	r.Op("SIGN", "n=%d signers=%d faults=%v -> %s", n, ns, anyFault, errTag(err))
 	r.Outcome(fmt.Sprintf("sign/n=%d/signers=%d/fault=%v/%s", n, ns, anyFault, errTag(err)))
 	r.Check()
@@ -201,7 +207,7 @@ func c11Sign(r *Run, t *tape.Tape) {
 		// if a slot is empty; and with erroring signers no later signer ran
 		firstErr := -1
 		for i, s := range spies {
-			if i < n && s.Fault == "err" {
+			if i < n && s.Fault != "" {
 				firstErr = i
 				break
 			}
@@ -418,11 +424,26 @@ func c11Verify(r *Run, t *tape.Tape) {
 		spies[i] = &SpyVerifier{Inner: r.verifierFor(k, false), Alg: cose.Algorithm(k.Alg), Log: &log, Tag: itoa(i)}
 		vs[i] = spies[i]
 	}
+	panicAt := -1
+	if len(spies) > 0 && t.Bool(1, 12, "c11.verifier.panic") {
+		// a verifier that crashes when consulted (a key object torn down, a
+		// malformed key): whatever go-cose does with the panic, the message
+		// has not been verified
+		panicAt = t.Choose(len(spies), "c11.verifier.panic.at")
+		spies[panicAt].Fault = "panic"
+	}
 	var lib error
 	r.Lib(func() { lib = m.Verify(external, vs...) })
+	lib = r.TakeSeamPanic(lib)
+	if panicAt >= 0 && len(spies[panicAt].Calls) > 0 {
+		r.Fired("verifier.panic")
+	}
 	// reference
 	want := len(vkeys) == len(st.sigs) && len(st.sigs) > 0
 	why := ""
+	if panicAt >= 0 {
+		want, why = false, fmt.Sprintf("verifier %d panics when consulted", panicAt)
+	}
 	if !want {
 		why = "number of verifiers differs from number of signatures"
 	}
